@@ -119,11 +119,15 @@ Qed.
 Print Assumptions C32_tag_branch_roundtrip.
 
 (* ---- the known lossy classes are non-empty and really lose information, whatever the codecs ---- *)
-Theorem C32_overwrite_config_upsert_dropped_refuted :
+(* former class overwrite_config_upsert_dropped (inverted emptiness test, repaired in /repo cb06601):
+   positive regression - Overwrite with config_upsert_values = Some {k: v} and with None both round trip *)
+Example C32_overwrite_config_upsert_regression :
   forall (bm_ser : list N -> bytes) (bm_de : bytes -> option (list N)),
-    exists t, Known_C32_overwrite_config_upsert_dropped t = true /\ txn_of_pb bm_de (txn_to_pb bm_ser t) <> Ok t.
-Proof. intros s d. exists w_config. exact (config_witness s d). Qed.
-Print Assumptions C32_overwrite_config_upsert_dropped_refuted.
+    txn_of_pb bm_de (txn_to_pb bm_ser w_config) = Ok w_config
+    /\ txn_classes w_config = 0
+    /\ (let t := txn_of (OpOverwrite [] (mk_schema [] []) None None) in
+        txn_of_pb bm_de (txn_to_pb bm_ser t) = Ok t /\ txn_classes t = 0).
+Proof. intros s d. split; [exact (config_regression s d)|]. repeat split. Qed.
 
 Theorem C32_rewrite_frag_reuse_index_dropped_refuted :
   forall (bm_ser : list N -> bytes) (bm_de : bytes -> option (list N)),
